@@ -63,6 +63,8 @@ var c05Curated = []string{
 	"1e5", "1E5", "1e+5", "1e-5", "1e", "1e+", "1e-", "1.e5", "1.5e3x", "1e5e5", "1.2.3", "1..2", "++1", "+-1", "-+1", "--1", "1 e5", "1e 5", "1E+05", "1e05",
 	"007", "0.0", "-0", "-0.0", "+0", "0e0", "0e999", ".0", "0.", "00", "-0e5", "1,5", "1,000", "$5", "5%", "1d5", "1f", "1L", "0b1", "0o7", "10", "10 ", "010", "1 0", "1 2",
 	"abc", "a1", "1a", "5x", "x5", "  12abc", "12 abc",
+	// control characters that strtod-style readers skip as blanks (the model is silent; one notion of a blank is demanded)
+	"\n5", "\r5", "\f5", "\v5", "\n100", " \n5", "\n 5", "5\n", "5\r", "\n0", "\n-3.5e1 ", "\r\n12", "\n9.5", "\v+7", "\f.5", "\n5x", "\n", "\r\n",
 	// magnitudes
 	"9007199254740992", "9007199254740993", "9007199254740994", "-9007199254740993", "9223372036854775807", "9223372036854775808", "-9223372036854775808",
 	"-9223372036854775809", "18446744073709551615", "18446744073709551616", "1e15", "1e16", "999999999999999999999", "123456789012345678901234567890",
